@@ -181,28 +181,7 @@ func childSetup() *slip.Scope {
 
 func defLisp1(g string, r *opRec) {
 	pn := fmt.Sprintf("a%d", r.ID)
-	var body strings.Builder
-	fmt.Fprintf(&body, "(vtr %d %s)", r.ID, pn)
-	if r.Nmp {
-		body.WriteString(" (vnp (next-method-p))")
-	}
-	if r.Qual == ":around" || len(r.Calls) > 0 {
-		fmt.Fprintf(&body, " (let ((r %d))", r.ID)
-		for ci, flips := range r.Calls {
-			switch {
-			case r.NoArg[ci]:
-				body.WriteString(" (setq r (call-next-method))")
-			case flips[0]:
-				fmt.Fprintf(&body, " (setq r (call-next-method (valt %s)))", pn)
-			default:
-				fmt.Fprintf(&body, " (setq r (call-next-method %s))", pn)
-			}
-		}
-		fmt.Fprintf(&body, " (vtr %d) r)", -r.ID)
-	} else {
-		fmt.Fprintf(&body, " %d", r.ID)
-	}
-	r.Lisp = fmt.Sprintf("(defmethod %s %s ((%s %s)) %s)", g, r.Qual, pn, r.Key[0], body.String())
+	r.Lisp = fmt.Sprintf("(defmethod %s %s ((%s %s)) %s)", g, r.Qual, pn, r.Key[0], bodyLisp(r, []string{pn}))
 }
 
 func removeLisp1(g string, r *opRec) {
@@ -226,6 +205,10 @@ func resultOf(out common.Outcome) (gallina, shown string) {
 		return "RNoApplicable", "!no-applicable-method"
 	case strings.HasPrefix(out.Msg, "No next method"):
 		return "RNoNext", "!no-next-method"
+	case strings.HasPrefix(out.Msg, "vfail "):
+		if id, err := strconv.Atoi(strings.TrimSpace(strings.TrimPrefix(out.Msg, "vfail "))); err == nil {
+			return fmt.Sprintf("RErr %d", id), "!error: " + out.Msg
+		}
 	}
 	return "ROther", "!" + out.Err + ": " + out.Msg
 }
@@ -275,9 +258,11 @@ func childConc(seed uint64, reps int) []concCase {
 					k = 2
 				}
 				r.Nmp = rng.Chance(20)
+				r.Fail = rng.Chance(5)
 				for i := 0; i < k; i++ {
 					r.Calls = append(r.Calls, []bool{rng.Chance(25)})
 					r.NoArg = append(r.NoArg, !r.Calls[i][0] && rng.Chance(40))
+					r.Caught = append(r.Caught, rng.Chance(20))
 				}
 			}
 			defLisp1(g, &r)
@@ -603,12 +588,7 @@ func runConcurrent(ctx *common.Ctx) {
 			if r.Kind == "remove" {
 				return fmt.Sprintf("OpRemove %s %s", gq[r.Qual], common.GStrs(r.Key))
 			}
-			var calls []string
-			for _, flips := range r.Calls {
-				calls = append(calls, common.GList([]string{common.GBool(flips[0])}))
-			}
-			return fmt.Sprintf("OpDef %s %s {| b_id := %d; b_nmp := %s; b_calls := %s |}", gq[r.Qual], common.GStrs(r.Key), r.ID,
-				common.GBool(r.Nmp), common.GList(calls))
+			return fmt.Sprintf("OpDef %s %s %s", gq[r.Qual], common.GStrs(r.Key), bodyGallina(&r))
 		}
 		bad := false
 		for _, r := range cc.Init {
